@@ -33,6 +33,7 @@ type c15Params struct {
 	OtherBucket bool           `json:"other_bucket,omitempty"` // the stored entries carry another bucket uuid (bucket dropped and recreated under the same name)
 	ExpectStart bool           `json:"expect_start"`           // control case: must start and cover every vBucket
 	WaitMs      int            `json:"wait_ms,omitempty"`
+	RM          bool           `json:"rm,omitempty"` // rollback mitigation enabled: its first observer asks for the failover logs as well
 }
 
 func init() {
@@ -150,6 +151,11 @@ func init() {
 				}
 				add(c15Params{Fault: "none", NumVB: 2 + rng.Intn(5), Nodes: 1 + rng.Intn(2), ExpectStart: true}, 60)
 			}
+			// a failing failover-log query of the rollback mitigation's start-up (no checkpoint reset involved)
+			// (temporary failure and busy included: for this query they are errors like any other)
+			for k, st := range []int{0x24, 0x84, 0x86, 0x85} {
+				add(c15Params{Fault: "failover", NumVB: 3, Nodes: 1, VBs: []int{k % 3}, Status: st, RM: true}, 60)
+			}
 			if tier == "thorough" {
 				add(c15Params{Fault: "open", NumVB: 3, Nodes: 1, VBs: []int{1}, Silent: true, WaitMs: 70000}, 120)
 				add(c15Params{Fault: "load", NumVB: 2, Nodes: 1, VBs: []int{0}, Silent: true, Backend: "cb", WaitMs: 15000}, 60)
@@ -195,7 +201,7 @@ func c15Hash(p *c15Params) string {
 	} else if len(p.VBs) > 1 {
 		shape = "some"
 	}
-	return drv.Hash(p.Fault, shape, fmt.Sprint(p.Status, p.Silent, p.Mode, p.Backend, p.Nodes, p.ExpectStart, p.NumVB, p.OtherBucket))
+	return drv.Hash(p.Fault, shape, fmt.Sprint(p.Status, p.Silent, p.Mode, p.Backend, p.Nodes, p.ExpectStart, p.NumVB, p.OtherBucket, p.RM))
 }
 
 func runC15(sc drv.Scenario) drv.Result {
@@ -232,6 +238,9 @@ func runC15(sc drv.Scenario) drv.Result {
 	}
 	if p.AutoReset != "" {
 		cfg.Checkpoint.AutoReset = p.AutoReset
+	}
+	if p.RM {
+		cfg.RollbackMitigation.Disabled = false
 	}
 	var md *hx.MemMetadata
 	storedBucket := env.Sim.UUID
